@@ -19,18 +19,19 @@ ObsPairWhy(x, y, eq, qe, cmp, pmc, h1, h2) ==
   ELSE LET c == VCmp(x, y) IN
        LET w == PairWhy(c, eq, qe, cmp, pmc) IN IF w # "" THEN w ELSE HashWhy(c, h1, h2)
 
-StepWhy(e, val, o, d) ==
+\* val, hs: abstract values and logged hashes of the registers after the step
+StepWhy(e, val, hs, o, d) ==
   LET x == val[d] IN
   IF ~WellFormed(x) THEN "malformed-value"
   ELSE First(
-    [r \in 1..e.nr |-> ObsPairWhy(x, val[r], o.eq[r], o.qe[r], o.cmp[r], o.pmc[r], o.hs[d], o.hs[r])]
+    [r \in 1..e.nr |-> ObsPairWhy(x, val[r], o.eq[r], o.qe[r], o.cmp[r], o.pmc[r], hs[d], hs[r])]
     \o [r \in 1..e.nr |-> IF "tcmp" \in DOMAIN o /\ Comparable(x, val[r]) /\ IsOrd(o.tcmp[r]) /\ o.tcmp[r] # VCmp(x, val[r])
                           THEN "cmp-differs-from-value-order" ELSE ""]
     \o [t \in 1..Len(o.tw) |->
           LET tw == o.tw[t]
               y == IF "v" \in DOMAIN tw THEN Dec(e.pool, tw.v) ELSE x
           IN IF ~WellFormed(y) THEN "" ELSE
-             LET w == ObsPairWhy(x, y, tw.eq, tw.qe, tw.cmp, tw.pmc, o.hs[d], tw.h) IN
+             LET w == ObsPairWhy(x, y, tw.eq, tw.qe, tw.cmp, tw.pmc, hs[d], tw.h) IN
              IF w # "" THEN w
              ELSE IF IsOrd(tw.pcmp) /\ tw.pcmp # VCmp(x, y) THEN "cmp-differs-from-value-order" ELSE ""])
 
@@ -40,20 +41,21 @@ NonCanon(x, ts) ==
   IF Len(ts) # Len(cs) THEN 0
   ELSE FoldLeft(LAMBDA acc, i : IF Canonical(ts[i], NWords(cs[i].m)) THEN acc ELSE acc + 1, 0, Idx(Len(cs)))
 
-FinWhy(e, val) ==
+FinWhy(e, val, hs) ==
   LET f == e.fin
       n == e.nr
       vals == [r \in 1..n |-> Dec(e.pool, f.v[r])]
-  IN IF \E r \in 1..n : vals[r] # val[r] THEN "register-changed-behind-the-history"
+  IN IF \E r \in 1..n : vals[r] # val[r] \/ f.hs[r] # hs[r] THEN "register-changed-behind-the-history"
      ELSE First(
        [i \in 1..n |-> First([j \in 1..n |->
            IF ~Comparable(val[i], val[j]) \/ ~WellFormed(val[i]) \/ ~WellFormed(val[j]) THEN ""
            ELSE ObsPairWhy(val[i], val[j], f.eq[i][j], f.eq[j][i], f.cmp[i][j], f.cmp[j][i], f.hs[i], f.hs[j])])]
        \o <<AntisymmetricWhy(f.cmp, n), TransitiveWhy(f.cmp, n)>>)
 
-\* replay of one history: acc = [val, why, at, drift, noncanon]
+\* replay of one history: acc = [val, hs, why, at, drift, noncanon]
 Replay(e) ==
-  LET init == [val |-> [r \in 1..e.nr |-> ZeroVal(e.pool)], why |-> "", at |-> 0, drift |-> 0, noncanon |-> 0]
+  LET init == [val |-> [r \in 1..e.nr |-> ZeroVal(e.pool)], hs |-> [r \in 1..e.nr |-> e.h0],
+               why |-> "", at |-> 0, drift |-> 0, noncanon |-> 0]
       Step(acc, k) ==
         IF acc.why # "" THEN acc ELSE
         LET s == e.steps[k]
@@ -61,14 +63,15 @@ Replay(e) ==
             d == s.d
             x == Dec(e.pool, o.v)
             nv == [acc.val EXCEPT ![d] = x]
+            nh == [acc.hs EXCEPT ![d] = o.h]
             pr == IF IsIntPool(e.pool) /\ o.k = "ok" THEN PredInt(s, acc.val) ELSE NoPred
-            w == StepWhy(e, nv, o, d)
-        IN [val |-> nv, why |-> w, at |-> IF w = "" THEN 0 ELSE k,
+            w == StepWhy(e, nv, nh, o, d)
+        IN [val |-> nv, hs |-> nh, why |-> w, at |-> IF w = "" THEN 0 ELSE k,
             drift |-> acc.drift + (IF pr.ok /\ WellFormed(x) /\ ~IEq(pr.i, x.i) THEN 1 ELSE 0),
             noncanon |-> acc.noncanon + (IF WellFormed(x) THEN NonCanon(x, o.t) ELSE 0)]
       r == FoldLeft(Step, init, Idx(Len(e.steps)))
   IN IF r.why # "" THEN r
-     ELSE LET w == FinWhy(e, r.val) IN [r EXCEPT !.why = w, !.at = IF w = "" THEN 0 ELSE Len(e.steps) + 1]
+     ELSE LET w == FinWhy(e, r.val, r.hs) IN [r EXCEPT !.why = w, !.at = IF w = "" THEN 0 ELSE Len(e.steps) + 1]
 
 VARIABLES l, bad, drift, noncanon
 vars == <<l, bad, drift, noncanon>>
